@@ -249,6 +249,27 @@ static void oracle_c02_block(const std::string& type, const VerCfg& vc, const Sc
 							  first_diff(b[0], b[1]).c_str(), first_diff(b[1], b[2]).c_str()),
 					 case_json(type, vc, s));
 	g_unit_outcomes.insert(vf::fnv(b[0]));
+	// an EDITED object: state that only an API setter can put into the block (the reader never does).  Match groups of
+	// a NiTriShapeData are dropped when a file is read, so writing them repeatedly is reachable only through the setter.
+	if (auto tsd = dynamic_cast<NiTriShapeData*>(obj)) {
+		MatchGroup mg;
+		mg.count = 2;
+		mg.matches = {0, 1};
+		tsd->SetMatchGroups({mg, mg});
+		std::string e[3];
+		for (int k = 0; k < 3; k++) {
+			std::ostringstream o(std::ios::binary);
+			NiOStream out(&o, &hdr);
+			obj->Put(out);
+			e[k] = o.str();
+		}
+		st.add("edited_block_resaves_checked");
+		if (e[0] != e[1] || e[1] != e[2])
+			st.violation(type + ":" + game_of(vc) + ":edited:put-twice-differs",
+						 vf::strf("%s (%s) after SetMatchGroups: writing the same object again gives different bytes (1st vs 2nd: %s; 2nd vs 3rd: %s)", type.c_str(), vc.name,
+								  first_diff(e[0], e[1]).c_str(), first_diff(e[1], e[2]).c_str()),
+						 case_json(type, vc, s).set("edit", "SetMatchGroups"));
+	}
 }
 
 // file level: every history over {R = raw save, D = default save, Q = query battery} against the
